@@ -9,6 +9,7 @@ See DESIGN.md section 7.
 """
 
 import json
+import re
 import time
 
 from . import peers, pool
@@ -41,7 +42,8 @@ def _leaves(node, out):
     while stack:
         n = stack.pop()
         if n.is_term():
-            out.append((n.start_position, n.end_position, n.value))
+            out.append((n.start_position, n.end_position, n.value,
+                        getattr(n, "layout_content", "") or ""))
             continue
         kids = list(n.children if hasattr(n, "children") and n.children is not None else list(n))
         prod = n.production
@@ -62,7 +64,7 @@ def check_tree(tree, text, start_fqn, consume):
     if root != start_fqn:
         probs.append(f"root is {root}, start symbol is {start_fqn}")
     pos = 0
-    for s, e, v in leaves:
+    for s, e, v, _lc in leaves:
         if not (isinstance(s, int) and isinstance(e, int) and 0 <= s <= e <= len(text)):
             probs.append(f"leaf span out of bounds [{s},{e}]")
             continue
@@ -93,17 +95,38 @@ def check_spans(spans, n):
     return probs
 
 
-def check_conservation(text, leaves, spans, ws):
+LAYOUT_RE = re.compile(r"(?:\s+|//[^\n]*|/\*[^*]*\*/)*")
+
+
+def check_conservation(text, leaves, spans, ws, layout="ws"):
+    """Every non-layout character lies in exactly one leaf or exactly one span.
+    layout 'ws': layout = the ws characters.  layout 'comments' (LAYOUT rule of
+    the pool: whitespace, // and /* */ comments): every maximal stretch of input
+    covered by no leaf and no span must be a string of the layout language."""
     cover = [0] * len(text)
-    for s, e, _ in leaves:
+    for s, e, _, _lc in leaves:
         for i in range(s, min(e, len(text))):
             cover[i] += 1
     for s, e in spans:
         for i in range(s, min(e, len(text))):
             cover[i] += 1
     probs = []
+    lay = [False] * len(text)
+    if layout == "comments":
+        i = 0
+        while i < len(text):
+            if cover[i]:
+                i += 1
+                continue
+            j = i
+            while j < len(text) and not cover[j]:
+                j += 1
+            if LAYOUT_RE.fullmatch(text, i, j):
+                for k in range(i, j):
+                    lay[k] = True
+            i = j
     for i, c in enumerate(text):
-        if c in ws:
+        if c in ws or lay[i]:
             continue
         if cover[i] != 1:
             probs.append(f"char {i} {c!r} covered {cover[i]} times (leaves+spans)")
@@ -360,11 +383,11 @@ def child_parses(spec, jobs):
                         rep["probs"].append("result differs from the parser without recovery")
                         rep["class"] = "baseline"
                 if (cfg["kind"] == "lr" and job["recovery"] != "default" and not sp
-                        and cfg["opts"].get("consume_input", True) and spec.get("layout") == "ws"):
+                        and cfg["opts"].get("consume_input", True)):
                     # conservation for custom strategies too (injected leaves are empty)
                     tp, leaves = check_tree(res, text, start_fqn, True)
                     if not tp:
-                        cp = check_conservation(text, leaves, spans, WS)
+                        cp = check_conservation(text, leaves, spans, WS, spec.get("layout"))
                         if cp:
                             rep.setdefault("class", "conservation")
                         rep["probs"] += cp
@@ -384,9 +407,8 @@ def child_parses(spec, jobs):
                         if tp:
                             rep.setdefault("class", "tree")
                         rep["probs"] += tp[:4]
-                        if (cfg["kind"] == "lr" and consume and spec.get("layout") == "ws"
-                                and not tp and not sp):
-                            cp = check_conservation(text, leaves, spans, WS)
+                        if cfg["kind"] == "lr" and consume and not tp and not sp:
+                            cp = check_conservation(text, leaves, spans, WS, spec.get("layout"))
                             if cp:
                                 rep.setdefault("class", "conservation")
                             rep["probs"] += cp
